@@ -97,3 +97,18 @@ Proof.
   - repeat first [apply no_cend_dec; reflexivity | split | discriminate | reflexivity | constructor].
   - split; [reflexivity|]. split; [vm_compute; reflexivity|reflexivity].
 Qed.
+
+(* ... and when the writing code raises: the document is the one of the program cut at the first raise (every block entered so
+   far closed by the `finally` of tagcontext), so it is still accepted by the reader and reports exactly what had been written *)
+Theorem C20_document_roundtrip_abort : forall l, forallb ctx_only l = true -> Forall wf l ->
+  xml_parse (fst (run_program l)) = Some (layout_doc (fst (cutl l))) /\ snd (run_program l) = snd (cutl l).
+Proof. exact document_roundtrip_abort. Qed.
+Print Assumptions C20_document_roundtrip_abort.
+
+Example C20_abort_nonvacuous :
+  let p := [SCtx [97] [([120], Some [34;60])]
+              [SLeaf [98] [] (Some [38]); SCtx [99] [] [SLeaf [100] [] None; SRaise; SLeaf [101] [] None]; SLeaf [102] [] None]] in
+  forallb ctx_only p = true /\ snd (run_program p) = true /\
+  fst (cutl p) = [SCtx [97] [([120], Some [34;60])] [SLeaf [98] [] (Some [38]); SCtx [99] [] [SLeaf [100] [] None]]] /\
+  xml_parse (fst (run_program p)) = Some (layout_doc (fst (cutl p))).
+Proof. cbv zeta. repeat split; vm_compute; reflexivity. Qed.
